@@ -224,7 +224,7 @@ def run(ctx):
     ctx.prepare()
     ctx.lean(["Crng.Props.C13"], ["Crng.Props.C13.item_independence", "Crng.Props.C13.convert_spec", "Crng.Props.C13.malformed_ends_connection",
                                   "Crng.Props.C13.invalid_item_skipped"],
-             ties=["Crng.Tie.C13"])
+             ties=["Crng.Tie.C13", common.CODE_PICKLE])
     cases, expect = build(ctx, ctx.rng("c13"), ctx.scale(300, 6000))
     known = []
     mon = make_monitor(expect, known)
